@@ -101,7 +101,7 @@ Section Static.
     | f0 :: _ => match f_off f0 with Some h => seq_gS h (g_block gst) st | None => Err EType end
     end.
   Definition INV (gst : gstate) (st : pstate) : Prop :=
-    g_pbits gst = false /\ p_bb st = bb_empty /\ Forall (mcls c) (g_block gst) /\ 0 <= g_off gst <= 9223372036854775807 /\
+    g_pbits gst = false /\ p_bb st = bb_empty /\ 0 <= p_pos st /\ Forall (mcls c) (g_block gst) /\ 0 <= g_off gst <= 9223372036854775807 /\
     (g_block gst = [] -> g_known gst = true -> p_pos st = start + g_off gst) /\
     (g_block gst <> [] -> exists h, hoff (g_block gst) = Some h /\ 0 <= h /\ gaps_ok c h (g_block gst) /\ p_pos st = start + h /\
                                     g_off gst = h + gsize c (segs c h (g_block gst))).
@@ -135,7 +135,7 @@ Section Static.
     gst2 = mkGS (g_off gst) [] (g_pbits gst) (g_btype gst) (g_brem gst) (g_roll gst) (g_known gst) /\
     (forall st1, pend gst st = Ok st1 -> p_bb st1 = bb_empty /\ (g_block gst <> [] -> p_pos st1 = start + g_off gst) /\ (g_block gst = [] -> st1 = st)).
   Proof.
-    intros [Hpb [Hbb [Hcl [Hmax [He Hne]]]]] Hst H. unfold flush in H. unfold pend. destruct (g_block gst) as [|f0 B] eqn:EB.
+    intros [Hpb [Hbb [Hpp [Hcl [Hmax [He Hne]]]]]] Hst H. unfold flush in H. unfold pend. destruct (g_block gst) as [|f0 B] eqn:EB.
     - injection H as <- <-. split; [cbn; reflexivity|]. split; [destruct gst; cbn in *; now subst|]. intros st1 E. injection E as <-. split; [exact Hbb|]. split; [intros X; now contradiction X|reflexivity].
     - destruct (Hne ltac:(discriminate)) as [h [Hh [Hh0 [Hg [Hp Hoff]]]]]. cbn [hoff] in Hh. rewrite Hh.
       destruct (gen_block c al (f0 :: B)) as [i|] eqn:Eg; [|discriminate]. cbn [bind] in H. injection H as <- <-.
@@ -171,7 +171,7 @@ Section Static.
     - inversion Hcls as [|? ? [Hb Hkind] Hcr]; subst. destruct Hog as [o [Ho [Hle [Hfs0 [HoM Hog]]]]].
       cbn [plan_go] in HP. destruct (plan_step c al f gst) as [[P1 gst1]|] eqn:E1; [|discriminate]. cbn [bind fst snd] in HP.
       destruct (plan_go c al r gst1) as [[P2 gst2]|] eqn:E2; [|discriminate]. cbn [bind fst snd] in HP. injection HP as <- <-.
-      pose proof Hinv as [Hpb [Hbb [Hcl [[Hg0 Hmax] [He Hne]]]]].
+      pose proof Hinv as [Hpb [Hbb [Hpp [Hcl [[Hg0 Hmax] [He Hne]]]]]].
       pose proof (bits_on_none f Hb) as Hbo.
       destruct Hkind as [[Hm Hms]|[Hm [Hsub [Hsok [n Hn]]]]].
       + (* a scalar member: it joins (or starts) a block *)
@@ -189,7 +189,7 @@ Section Static.
           rewrite <- app_assoc, run_app, Hrun. cbn [bind]. unfold pend at 1. rewrite EB. cbn [bind seq_loop].
           refine (req_trans _ _ _ (IH _ st1 _ _ _ _ Hcr _ _ Hst E2 HF) _); cbn [g_off g_block g_pbits g_known].
           -- exact Hog.
-          -- unfold INV. cbn [g_pbits g_block g_off g_known st1 p_bb p_pos hoff]. split; [reflexivity|]. split; [exact Hbb|]. split; [constructor; [exact Hmc|constructor]|].
+          -- unfold INV. cbn [g_pbits g_block g_off g_known st1 p_bb p_pos hoff]. split; [reflexivity|]. split; [exact Hbb|]. split; [lia|]. split; [constructor; [exact Hmc|constructor]|].
              split; [lia|]. split; [discriminate|]. intros _. exists o. split; [exact Ho|]. split; [lia|]. split; [exists o; split; [exact Ho|split; [lia|exact I]]|].
              split; [reflexivity|]. cbn [segs gsize fold_right fst snd bsize]. rewrite Ho. cbn [fst snd bsize fold_right]. lia.
           -- unfold pend. cbn [g_block]. rewrite Ho. rewrite (seq_gS_single f o st1 Hb Ho eq_refl Hbb).
@@ -202,7 +202,7 @@ Section Static.
           pose proof (gok_segs c fuel _ h Hcl Hg) as Hok. pose proof (gsize_nonneg c fuel _ Hok) as Hgn.
           refine (req_trans _ _ _ (IH _ st _ _ _ _ Hcr _ _ Hst E2 HF) _); cbn [g_off g_block g_pbits g_known].
           -- exact Hog.
-          -- unfold INV. cbn [g_pbits g_block g_off g_known]. split; [exact Hpb|]. split; [exact Hbb|]. split; [apply Forall_app; split; [exact Hcl|constructor; [exact Hmc|constructor]]|].
+          -- unfold INV. cbn [g_pbits g_block g_off g_known]. split; [exact Hpb|]. split; [exact Hbb|]. split; [exact Hpp|]. split; [apply Forall_app; split; [exact Hcl|constructor; [exact Hmc|constructor]]|].
              split; [lia|]. split; [intros X; destruct B; discriminate X|]. intros _. exists h. split; [exact Hh|]. split; [exact Hh0|].
              split; [apply (gaps_ok_snoc _ h f o Hg Ho); lia|]. split; [exact Hp|].
              change ((f0 :: B) ++ [f]) with ((f0 :: B) ++ [f]). rewrite (segs_snoc (f0 :: B) h f o Hg Ho), gsize_app. cbn [gsize fold_right fst snd bsize]. lia.
@@ -235,11 +235,13 @@ Section Static.
         destruct Hrun as [stc [Hstc [Hblk [Hpbc [Hoffc Hrun]]]]]. rewrite Hstc in *.
         change ([ISub f] ++ P2 ++ Pf) with (ISub f :: (P2 ++ Pf)). rewrite Hrun.
         destruct (read_member c fuel s start f st1) as [st2|] eqn:Erm; cbn [bind]; [|exact I].
-        assert (Hbb2 : p_bb st2 = bb_empty).
-        { unfold read_member in Erm. rewrite Hbo in Erm. cbn beta in Erm. destruct (read_ty c fuel (f_ty f) s _ (p_ctx st1)) as [[v p']|]; [|discriminate]. cbn [bind] in Erm. injection Erm as <-. reflexivity. }
+        assert (Hbb2 : p_bb st2 = bb_empty /\ 0 <= p_pos st2).
+        { unfold read_member in Erm. rewrite Hbo, Ho in Erm. cbn beta in Erm. destruct (read_ty c fuel (f_ty f) s (start + o) (p_ctx st1)) as [[v p']|] eqn:Erd; [|discriminate]. cbn [bind] in Erm. injection Erm as <-.
+          split; [reflexivity|]. cbn [p_pos snd]. destruct Hsok as [_ Hnn]. apply (Hnn s (start + o) (p_ctx st1) v p'); [lia|exact Erd]. }
+        destruct Hbb2 as [Hbb2 Hpp2].
         refine (req_trans _ _ _ (IH _ st2 _ _ _ _ Hcr _ _ Hst E2 HF) _); unfold after_sub; rewrite Hn; cbn [g_off g_block g_pbits g_known]; rewrite ?Hoffc, ?Hblk, ?Hpbc.
         -- exact Hog.
-        -- unfold INV. cbn [g_pbits g_block g_off g_known]. rewrite ?Hblk, ?Hpbc, ?Hoffc. split; [reflexivity|]. split; [exact Hbb2|]. split; [constructor|]. split; [lia|].
+        -- unfold INV. cbn [g_pbits g_block g_off g_known]. rewrite ?Hblk, ?Hpbc, ?Hoffc. split; [reflexivity|]. split; [exact Hbb2|]. split; [exact Hpp2|]. split; [constructor|]. split; [lia|].
            split; [intros _ X; discriminate X|intros X; now contradiction X].
         -- unfold pend. cbn [g_block]. rewrite ?Hblk. cbn [bind]. apply req_refl.
   Qed.
@@ -337,7 +339,7 @@ Section StaticTheorem.
     unfold plan_fields in Hplan. destruct (plan_go c al F _) as [[P gst']|] eqn:EP; [|discriminate]. cbn [bind fst snd] in Hplan.
     destruct (flush c al gst') as [[Pf gst'']|] eqn:EF; [|discriminate]. cbn [bind fst snd] in Hplan. injection Hplan as <-.
     assert (Hinv0 : INV c pos (mkGS 0 [] false None 0 false true) st0).
-    { unfold INV. cbn [g_pbits g_block g_off g_known st0 p_bb p_pos]. split; [reflexivity|]. split; [reflexivity|]. split; [constructor|]. split; [lia|].
+    { unfold INV. cbn [g_pbits g_block g_off g_known st0 p_bb p_pos]. split; [reflexivity|]. split; [reflexivity|]. split; [exact Hpos|]. split; [constructor|]. split; [lia|].
       split; [intros _ _; lia|intros X; now contradiction X]. }
     pose proof (static_loop c fuel s pos (ls_align lst') al F (mkGS 0 [] false None 0 false true) st0 P gst' Pf gst'' HclF (ogaps_mono c _ _ HeM _ _ Hg) Hinv0 Hpos EP EF) as PL.
     unfold pend in PL. cbn [g_block bind] in PL.
